@@ -35,7 +35,7 @@ FRESH = {
     'ro_rgb': lambda f, w: not (f == 'RGB' and not w), 'ro_bgr': lambda f, w: not (f == 'BGR' and not w),
 }
 ABSTRACT = VIEWS + ['copy', 'image', 'jpg', 'pickle', 'write', 'relabel', 'newdata', 'fromimage']
-SIZES = [(1, 1), (2, 3), (5, 4), (16, 16)]
+SIZES = [(1, 1), (2, 3), (5, 4), (16, 16), (32, 24), (40, 48)]      # the two large ones: a JPEG of them is smaller than the raw pixels (size-dependent shortcuts)
 STARTS = ([['fromArr', 0, w, f] for f in ('BGR', 'RGB', 'GRAY') for w in (True, False)] +
           [['fromJpg', 0, f, True] for f in ('BGR', 'RGB', 'GRAY')] +
           [['fromJpg', 0, 'BGR', False], ['fromJpg', 0, 'GRAY', False], ['fromData']])
